@@ -505,6 +505,61 @@ def cli_case(chk, case_seed, stats, coq_cases, metas, force=None):
         return n_inv
 
 
+def repeated_tag_case(chk, case_seed, stats):
+    """One ad-hoc tag used several times in ONE run with different argument lists (twice in the name
+    template — once with a context —, and in the sort expression): every occurrence is its own
+    instance, so every invocation must carry exactly the arguments written at ITS occurrence."""
+    rng = random.Random(case_seed)
+    with Sandbox(prefix="verif-c20r-") as root:
+        cfg = os.path.join(root, "cfg")
+        bindir = os.path.join(cfg, "bin")
+        tree = os.path.join(root, "t")
+        os.makedirs(os.path.join(tree, "in"))
+        beh = {"P": (b"v\n", b"STDERRLEAK\n", 0)}
+        setup_cfg(cfg, beh)
+        os.makedirs(bindir)
+        exe = os.path.join(bindir, "P")
+        os.symlink(PROBE, exe)
+        names = rng.sample(["a.txt", "b c.dat", "-d", "e'f"], rng.randrange(1, 4))
+        for n in names:
+            with open(os.path.join(tree, "in", n), "w") as fh:
+                fh.write(n)
+        pool = [a for a in HOSTILE_ARGS if template_safe_arg(a)] + ["one", "two", "three", "", "x y"]
+        occ = [[rng.choice(pool) for _ in range(rng.randrange(0, 4))] for _ in range(3)]
+        if occ[0] == occ[1]:
+            occ[1] = occ[1] + ["differs"]
+        call = lambda a: "%P(" + ", ".join(quote_arg(rng, x) for x in a) + ")"   # noqa: E731
+        template = "%Name()[" + call(occ[0]) + "][" + call(occ[1]) + "{ctx}]"
+        argv = ["-ih", "-n", "-ah", "P=" + exe]
+        use_sort = rng.random() < 0.5
+        if use_sort:
+            argv += ["-s", call(occ[2])]
+        argv += ["--", template, os.path.join(tree, "in")]
+        case = {"route": "cli-repeated", "case_seed": case_seed, "argv": [a.replace(root, "<root>") for a in argv], "occurrences": occ}
+        os.environ["PROBE_CFG"] = cfg
+        os.lseek(0, 0, os.SEEK_SET)
+        res = cli_driver.run_cli(argv, root, trace=False)
+        os.environ.pop("PROBE_CFG", None)
+        recs = read_records(cfg, chk.c20_marker)
+        stats["repeated_tag_runs"] = stats.get("repeated_tag_runs", 0) + 1
+        chk.count(("cli-repeated", tuple(case["argv"])))
+        if res.status != 0:
+            chk.oracle_fail("tempren exit status %r (expected 0); stderr tail %r" % (res.status, res.stderr[-300:]), case)
+            return len(recs)
+        enc = lambda l: [x.encode("utf-8", "surrogateescape") for x in l]   # noqa: E731
+        want = []
+        for n in names:
+            want.append(enc([exe] + occ[0] + [n]))
+            want.append(enc([exe] + occ[1]))
+            if use_sort:
+                want.append(enc([exe] + occ[2] + [n]))
+        got = [r["argv"] for r in recs]
+        if sorted(map(tuple, got)) != sorted(map(tuple, want)):
+            chk.oracle_fail("one tag used %d times with different arguments: the programs received %r, expected (in any order) %r"
+                            % (3 if use_sort else 2, got[:6], want[:6]), case)
+        return len(recs)
+
+
 # --------------------------------------------------------------------------- Gallina
 
 def q_bytes(b):
@@ -861,6 +916,8 @@ def run(chk):
         stats["corpus_cases"] = len(fixed)
         real_programs_case(chk, stats)
         real_programs_case(chk, stats, via_subprocess=True)
+        for k in range(12 if quick else 300):
+            stats["invocations"] += repeated_tag_case(chk, rng.randrange(1 << 30), stats)
         # exhaustive small scopes: every hostile argument alone and every hostile file name through the CLI
         # (thorough: all of them; quick: a rotating slice chosen by the seed)
         safe_args = [a for a in HOSTILE_ARGS if template_safe_arg(a)]
